@@ -47,10 +47,6 @@ KNOWN = {}
 
 # Predicates for the two defects this check finds on the unchanged tree, ready to be moved
 # into KNOWN if they are recorded in known_findings.json rather than fixed.
-KNOWN_CANDIDATES = {
-    "resample-tnew-spacing": lambda case, kind, detail: kind == "tnew_positions",
-    "fixtime-hold-tol0": lambda case, kind, detail: kind == "hold_tol0_exact_time",
-}
 
 EPS = 2.0 ** -52
 
